@@ -101,6 +101,14 @@ def run(rep, wd, tier, seed):
     jobs = [(seed, cfgspec, codec) for cfgspec in (('pkg',), ('gen', 900 + seed)) for codec in ('latin_1', 'cp500')]
     outs = isocheck._pool(_drive_attacks, jobs)
     groups = [(j[1], j[2], o) for j, o in zip(jobs, outs)]
+    # the same attacks decoded by an optimised interpreter (python -O): framing may not rest on assert statements
+    ojobs = [jobs[0], jobs[-1]] if tier == 'quick' else jobs
+    oouts = isocheck.pool_optimised('harness.c08', '_drive_attacks', ojobs)
+    for j, o in zip(ojobs, oouts):
+        for t in o:
+            t['_desc'] += ' [python -O]'
+        groups.append((j[1], j[2], o))
+    rep.extra['targeted_prefix_attacks_optimised_interpreter'] = sum(len(o) for o in oouts)
     rep.extra['targeted_prefix_attacks'] = sum(len(o) for o in outs)
     if outs and outs[0]:
         rep.sample({'attack': outs[0][0]['_desc'], 'observed': outs[0][0]['events'][0]['kind']})
